@@ -9,11 +9,18 @@
 (*     size (all a-b, a-, -k) plus malformed values and no Range at all, x    *)
 (*     If-Modified-Since class x method.  The harness crosses these with      *)
 (*     Accept-Encoding values and file-system kinds.                          *)
+(*  "seq" inputs: request SEQUENCES on one handler and one file: every         *)
+(*     sequence of 2..SL requests over a menu (full GET/HEAD, first byte,      *)
+(*     tail, suffix, ranged HEAD, unsatisfiable, not-modified).  The reference *)
+(*     is history-free: the expected outcome of a step is that of the same     *)
+(*     request alone - which is exactly what a pooled, stateful reader can     *)
+(*     break.                                                                  *)
 (* Init enumerates all inputs; RefInv meta-checks the reference on each.      *)
 EXTENDS ByteRange, Json
 
 NB == @@NB@@
 Sizes == @@SIZES@@
+SL == @@SL@@
 
 Items == <<"i", "t", "e", "m", "s", "=">>
 Units == { BytesEq, SubSeq(BytesEq, 1, 5), Items, <<>> }
@@ -42,15 +49,29 @@ Methods == {"GET", "HEAD"}
 ReqInputs == UNION { [k : {"req"}, n : {n}, has : {TRUE}, v : RangeValues(n), ims : ImsClasses, m : Methods] : n \in Sizes }
              \cup [k : {"req"}, n : Sizes, has : {FALSE}, v : {<<>>}, ims : ImsClasses, m : Methods]
 
-Inputs == PbrInputs \cup ReqInputs
+\* ---- request sequences ---------------------------------------------------------
+Rq(m, has, v, ims) == [m |-> m, has |-> has, v |-> v, ims |-> ims]
+Menu(n) == { Rq("GET", FALSE, <<>>, "none"),
+             Rq("HEAD", FALSE, <<>>, "none"),
+             Rq("GET", TRUE, BytesEq \o <<"0", "-", "0">>, "none"),
+             Rq("GET", TRUE, BytesEq \o NumChars(n \div 2) \o <<"-">>, "none"),
+             Rq("GET", TRUE, BytesEq \o <<"-", "1">>, "none"),
+             Rq("HEAD", TRUE, BytesEq \o <<"1", "-", "2">>, "none"),
+             Rq("GET", TRUE, BytesEq \o NumChars(n) \o <<"-">>, "none"),
+             Rq("GET", FALSE, <<>>, "at") }
+SeqInputs == UNION { [k : {"seq"}, n : {n}, steps : UNION { [1..l -> Menu(n)] : l \in 2..SL }] : n \in Sizes }
 
+Inputs == PbrInputs \cup ReqInputs \cup SeqInputs
+
+ReqVec(n, q) == LET r == SelectFor(q.v, n) IN
+       [k |-> "req", n |-> n, has |-> q.has, v |-> q.v, ims |-> q.ims, m |-> q.m,
+        cls |-> IF q.has THEN r.cls ELSE "none", s |-> r.s, e |-> r.e,
+        st |-> SetToSeq(Statuses(q.has, r, q.ims))]
 Vec(x) ==
-  IF x.k = "pbr"
-  THEN LET r == SelectFor(x.v, x.n) IN [k |-> "pbr", v |-> x.v, n |-> x.n, cls |-> r.cls, s |-> r.s, e |-> r.e]
-  ELSE LET r == SelectFor(x.v, x.n) IN
-       [k |-> "req", n |-> x.n, has |-> x.has, v |-> x.v, ims |-> x.ims, m |-> x.m,
-        cls |-> IF x.has THEN r.cls ELSE "none", s |-> r.s, e |-> r.e,
-        st |-> SetToSeq(Statuses(x.has, r, x.ims))]
+  CASE x.k = "pbr" -> LET r == SelectFor(x.v, x.n) IN [k |-> "pbr", v |-> x.v, n |-> x.n, cls |-> r.cls, s |-> r.s, e |-> r.e]
+    [] x.k = "req" -> ReqVec(x.n, x)
+    \* history-free: each step is expected to behave exactly like the single request
+    [] x.k = "seq" -> [k |-> "seq", n |-> x.n, steps |-> [i \in 1..Len(x.steps) |-> ReqVec(x.n, x.steps[i])]]
 
 ASSUME ndJsonSerialize("vectors.ndjson", SetToSeq({ Vec(x) : x \in Inputs }))
 
@@ -59,12 +80,14 @@ Init == inp \in Inputs
 Next == UNCHANGED inp
 Spec == Init /\ [][Next]_inp
 
-RefInv == LET f == ParseForm(inp.v) r == Select(f, inp.n) IN
-  /\ SelectOK(f, inp.n)
-  /\ inp.k = "req" =>
-       LET st == Statuses(inp.has, r, inp.ims) IN
-         /\ st # {} /\ st \subseteq {200, 206, 304, 416}
-         /\ (206 \in st => inp.has /\ r.cls = "sat" /\ st = {206})
-         /\ (NotModified(inp.ims) <=> st = {304})
-         /\ (~inp.has /\ ~NotModified(inp.ims)) => st = {200}
+ReqOK(n, q) == LET f == ParseForm(q.v) r == Select(f, n) st == Statuses(q.has, r, q.ims) IN
+  /\ SelectOK(f, n)
+  /\ st # {} /\ st \subseteq {200, 206, 304, 416}
+  /\ (206 \in st => q.has /\ r.cls = "sat" /\ st = {206})
+  /\ (NotModified(q.ims) <=> st = {304})
+  /\ (~q.has /\ ~NotModified(q.ims)) => st = {200}
+
+RefInv == CASE inp.k = "pbr" -> SelectOK(ParseForm(inp.v), inp.n)
+            [] inp.k = "req" -> ReqOK(inp.n, inp)
+            [] inp.k = "seq" -> \A i \in 1..Len(inp.steps) : ReqOK(inp.n, inp.steps[i])
 =============================================================================
